@@ -9,42 +9,84 @@ Lemma mh_eqb_refl h : mh_eqb h h = true.
 Proof. destruct h; cbn; try reflexivity. apply Nat.eqb_refl. Qed.
 Lemma mh_eqb_eq a b : mh_eqb a b = true -> a = b.
 Proof. destruct a, b; cbn; try discriminate; try reflexivity. intros H. apply Nat.eqb_eq in H. congruence. Qed.
+Lemma recv_eqb_refl r : recv_eqb r r = true.
+Proof. destruct r; cbn; try reflexivity; apply Nat.eqb_refl. Qed.
 Lemma is_logger_true h : is_logger h = true <-> h = Logger.
 Proof. destruct h; cbn; split; congruence. Qed.
 Lemma is_logger_false h : is_logger h = false <-> h <> Logger.
 Proof. destruct h; cbn; split; congruence. Qed.
+Lemma memb_remove j k l : memb j (remove_id k l) = memb j l && negb (Nat.eqb j k).
+Proof.
+  unfold memb, remove_id. induction l as [|x t IH]; cbn [filter existsb]; [reflexivity|].
+  destruct (Nat.eqb x k) eqn:Exk; cbn [negb].
+  - rewrite IH. destruct (Nat.eqb j x) eqn:Ejx; cbn [orb]; [|reflexivity].
+    apply Nat.eqb_eq in Ejx, Exk. subst. rewrite Nat.eqb_refl. cbn. rewrite andb_false_r. reflexivity.
+  - cbn [existsb]. rewrite IH. destruct (Nat.eqb j x) eqn:Ejx; cbn [orb]; [|reflexivity].
+    apply Nat.eqb_eq in Ejx. subst. rewrite Exk. reflexivity.
+Qed.
+Lemma remove_notin k l : memb k l = false -> remove_id k l = l.
+Proof.
+  unfold memb, remove_id. induction l as [|x t IH]; cbn [filter existsb]; [reflexivity|].
+  intros H. apply orb_false_iff in H as [H1 H2]. rewrite Nat.eqb_sym in H1. rewrite H1. cbn [negb].
+  f_equal. apply IH, H2.
+Qed.
+Local Arguments memb : simpl never.
+Local Arguments remove_id : simpl never.
 
 Definition dstep := istep doc_inst.
 Lemma dstep_eq s o : dstep s o =
   match o with
-  | Install => {| cur := Logger; saved := if is_logger (cur s) then saved s else Some (cur s) |}
+  | Install k => if memb k (alive s)
+                 then {| cur := Logger; saved := if is_logger (cur s) then saved s else Some (cur s);
+                         active := Some k; alive := alive s |}
+                 else s
   | Restore => match saved s with
                | None => s
-               | Some p => {| cur := if is_logger (cur s) then p else cur s; saved := None |}
+               | Some p => {| cur := if is_logger (cur s) then p else cur s; saved := None;
+                              active := active s; alive := alive s |}
                end
-  | ForeignInstall n => {| cur := Foreign n; saved := saved s |}
-  | ForeignReset => {| cur := Default; saved := saved s |}
+  | ForeignInstall n => {| cur := Foreign n; saved := saved s; active := active s; alive := alive s |}
+  | ForeignReset => {| cur := Default; saved := saved s; active := active s; alive := alive s |}
+  | Create k => if memb k (alive s) then s
+                else {| cur := cur s; saved := saved s; active := active s; alive := k :: alive s |}
+  | Destroy k => if memb k (alive s)
+                 then {| cur := cur s; saved := saved s;
+                         active := if is_active s k then None else active s;
+                         alive := remove_id k (alive s) |}
+                 else s
   end.
-Proof. unfold dstep. destruct o; cbn; try reflexivity; destruct (saved s); destruct (is_logger (cur s)); reflexivity. Qed.
+Proof.
+  unfold dstep. destruct o as [k| |n| |k|k]; cbn; try reflexivity.
+  destruct (saved s); destruct (is_logger (cur s)); reflexivity.
+Qed.
 
-(* the logger never holds its own handler as the one to reinstate, and whenever its handler is
-   current it has something to reinstate *)
-Definition IInv (s : ist) : Prop := saved s <> Some Logger /\ (cur s = Logger -> saved s <> None).
+(* the logger never holds its own handler as the one to reinstate; whenever its handler is current
+   it has something to reinstate; g_activeLogger never points to a logger that no longer exists *)
+Definition IInv (s : ist) : Prop :=
+  saved s <> Some Logger /\ (cur s = Logger -> saved s <> None)
+  /\ (forall k, active s = Some k -> memb k (alive s) = true).
 Lemma dstep_inv s o : IInv s -> IInv (dstep s o).
 Proof.
-  intros [H1 H2]. rewrite dstep_eq. destruct o as [| |n|].
-  - split; cbn.
+  intros [H1 [H2 H3]]. rewrite dstep_eq. destruct o as [k| |n| |k|k].
+  - destruct (memb k (alive s)) eqn:Ek; [|repeat split; assumption]. repeat split; cbn.
     + destruct (is_logger (cur s)) eqn:E; [exact H1|]. apply is_logger_false in E. congruence.
     + intros _. destruct (is_logger (cur s)) eqn:E; [apply H2, is_logger_true, E|discriminate].
-  - destruct (saved s) as [p|] eqn:Es; [|split; [rewrite Es; discriminate|rewrite Es; exact H2]].
-    split; cbn; [discriminate|]. destruct (is_logger (cur s)) eqn:E.
+    + intros k' E. injection E as E. subst k'. exact Ek.
+  - destruct (saved s) as [p|] eqn:Es; [|repeat split; [rewrite Es; discriminate|rewrite Es; exact H2|exact H3]].
+    repeat split; cbn; [discriminate| |exact H3]. destruct (is_logger (cur s)) eqn:E.
     + intros E2. subst p. contradiction H1. reflexivity.
     + intros E2. apply is_logger_false in E. contradiction.
-  - split; cbn; [exact H1|discriminate].
-  - split; cbn; [exact H1|discriminate].
+  - repeat split; cbn; [exact H1|discriminate|exact H3].
+  - repeat split; cbn; [exact H1|discriminate|exact H3].
+  - destruct (memb k (alive s)) eqn:Ek; [repeat split; assumption|]. repeat split; cbn; [exact H1|exact H2|].
+    intros j E. unfold memb. cbn [existsb]. fold (memb j (alive s)). rewrite (H3 j E). apply orb_true_r.
+  - destruct (memb k (alive s)) eqn:Ek; [|repeat split; assumption]. repeat split; cbn; [exact H1|exact H2|].
+    intros j E. unfold is_active in E. destruct (active s) as [a|] eqn:Ea; [|discriminate].
+    destruct (Nat.eqb a k) eqn:Eak; [discriminate|]. injection E as E. subst a.
+    change (memb j (remove_id k (alive s)) = true). rewrite memb_remove, (H3 j eq_refl), Eak. reflexivity.
 Qed.
 Lemma i0_inv : IInv i0.
-Proof. split; cbn; discriminate. Qed.
+Proof. repeat split; cbn; discriminate. Qed.
 Lemma fold_inv ops : forall s, IInv s -> IInv (fold_left dstep ops s).
 Proof. induction ops as [|o r IH]; intros s H; cbn; [exact H|]. apply IH, dstep_inv, H. Qed.
 Theorem run_inv ops : IInv (irun doc_inst ops).
@@ -52,8 +94,19 @@ Proof. apply (fold_inv ops i0 i0_inv). Qed.
 Corollary never_saves_itself ops : saved (irun doc_inst ops) <> Some Logger.
 Proof. apply run_inv. Qed.
 
-Lemma install_twice s : dstep (dstep s Install) Install = dstep s Install.
-Proof. rewrite !dstep_eq. cbn. reflexivity. Qed.
+Lemma install_twice s k : dstep (dstep s (Install k)) (Install k) = dstep s (Install k).
+Proof.
+  rewrite (dstep_eq s). destruct (memb k (alive s)) eqn:Ek.
+  - rewrite dstep_eq. cbn. rewrite Ek. reflexivity.
+  - rewrite dstep_eq, Ek. reflexivity.
+Qed.
+(* an install by ANOTHER logger object while the logger's handler is current keeps what is saved *)
+Lemma install_other_keeps_saved s j k : memb j (alive s) = true ->
+  saved (dstep (dstep s (Install j)) (Install k)) = saved (dstep s (Install j)).
+Proof.
+  intros Ej. rewrite (dstep_eq s), Ej. rewrite dstep_eq. cbn [alive cur saved].
+  destruct (memb k (alive s)); reflexivity.
+Qed.
 Lemma restore_idempotent s : dstep (dstep s Restore) Restore = dstep s Restore.
 Proof.
   rewrite (dstep_eq s Restore). destruct (saved s) eqn:E.
@@ -65,86 +118,164 @@ Proof.
   intros H. rewrite dstep_eq. destruct (saved s); [|reflexivity]. cbn.
   apply is_logger_false in H. rewrite H. reflexivity.
 Qed.
+(* a logger object going away changes neither the current handler nor the one to reinstate *)
+Lemma destroy_keeps_handlers s k : cur (dstep s (Destroy k)) = cur s /\ saved (dstep s (Destroy k)) = saved s.
+Proof. rewrite dstep_eq. destruct (memb k (alive s)); split; reflexivity. Qed.
+Lemma create_keeps_handlers s k :
+  cur (dstep s (Create k)) = cur s /\ saved (dstep s (Create k)) = saved s /\ active (dstep s (Create k)) = active s.
+Proof. rewrite dstep_eq. destruct (memb k (alive s)); repeat split; reflexivity. Qed.
 Lemma irun_snoc ops o : irun doc_inst (ops ++ [o]) = dstep (irun doc_inst ops) o.
 Proof. unfold irun. rewrite fold_left_app. reflexivity. Qed.
 Lemma irun_app ops ops' : irun doc_inst (ops ++ ops') = fold_left dstep ops' (irun doc_inst ops).
 Proof. unfold irun. rewrite fold_left_app. reflexivity. Qed.
+Lemma receiver_nonlogger s : cur s <> Logger -> receiver s = recv_of (cur s).
+Proof. unfold receiver, recv_of. destruct (cur s); congruence. Qed.
 
-(* after any history: Install, any number of further Installs, then Restore gives back the handler
-   that was current before, if it was not the logger's *)
-Theorem install_n_restore ops n : cur (irun doc_inst ops) <> Logger ->
-  cur (irun doc_inst (ops ++ repeat Install (S n) ++ [Restore])) = cur (irun doc_inst ops).
+(* after any history: Install by an existing logger, any number of further Installs, then Restore
+   gives back the handler that was current before, if it was not the logger's *)
+Theorem install_n_restore ops k n : cur (irun doc_inst ops) <> Logger -> memb k (alive (irun doc_inst ops)) = true ->
+  cur (irun doc_inst (ops ++ repeat (Install k) (S n) ++ [Restore])) = cur (irun doc_inst ops).
 Proof.
-  intros H. rewrite app_assoc, irun_snoc, irun_app. set (s := irun doc_inst ops) in *.
-  assert (E : fold_left dstep (repeat Install (S n)) s = dstep s Install).
-  { cbn [repeat fold_left]. generalize s. clear. induction n as [|k IH]; intros s; [reflexivity|].
+  intros H Hk. rewrite app_assoc, irun_snoc, irun_app. set (s := irun doc_inst ops) in *.
+  assert (E : fold_left dstep (repeat (Install k) (S n)) s = dstep s (Install k)).
+  { cbn [repeat fold_left]. generalize s. clear. induction n as [|m IH]; intros s; [reflexivity|].
     cbn [repeat fold_left]. rewrite install_twice. apply IH. }
-  rewrite E. rewrite !dstep_eq. cbn. apply is_logger_false in H. rewrite H. cbn. reflexivity.
+  rewrite E. rewrite !dstep_eq. rewrite Hk. cbn. apply is_logger_false in H. rewrite H. cbn. reflexivity.
 Qed.
+
+(* ---- object lifetime: between a state in which a non-logger handler h is current and a Restore,
+   Logger objects may be created, installed (each any number of times) and destroyed in any order;
+   if the logger's handler is current at the end, Restore reinstates h and h receives the messages
+   - also when every logger that was installed is gone ---- *)
+Definition logger_op (o : iop) : bool :=
+  match o with Install _ | Create _ | Destroy _ => true | _ => false end.
+Lemma lifetime_inv mid : forallb logger_op mid = true -> forall s0 s, cur s0 <> Logger ->
+  ((cur s = cur s0 /\ saved s = saved s0) \/ (cur s = Logger /\ saved s = Some (cur s0))) ->
+  let s' := fold_left dstep mid s in
+  (cur s' = cur s0 /\ saved s' = saved s0) \/ (cur s' = Logger /\ saved s' = Some (cur s0)).
+Proof.
+  induction mid as [|o r IH]; intros Hm s0 s H0 H; cbn [fold_left]; [exact H|].
+  cbn [forallb] in Hm. apply andb_true_iff in Hm as [Ho Hr]. apply (IH Hr s0 _ H0).
+  rewrite dstep_eq. destruct o as [k| |n| |k|k]; try discriminate.
+  - destruct (memb k (alive s)); [|exact H]. right. cbn. split; [reflexivity|].
+    destruct H as [[E1 E2]|[E1 E2]].
+    + rewrite E1. apply is_logger_false in H0. rewrite H0. reflexivity.
+    + rewrite E1. cbn. exact E2.
+  - destruct (memb k (alive s)); exact H.
+  - destruct (memb k (alive s)); exact H.
+Qed.
+Theorem lifetime_restore s mid : cur s <> Logger -> forallb logger_op mid = true ->
+  let s' := fold_left dstep mid s in
+  cur s' = Logger ->
+  cur (dstep s' Restore) = cur s /\ receiver (dstep s' Restore) = recv_of (cur s).
+Proof.
+  intros H0 Hm s' Hc.
+  destruct (lifetime_inv mid Hm s s H0 (or_introl (conj eq_refl eq_refl))) as [[E1 E2]|[E1 E2]];
+    fold s' in E1, E2; [congruence|].
+  assert (E : cur (dstep s' Restore) = cur s).
+  { rewrite dstep_eq, E2. cbn. rewrite E1. reflexivity. }
+  split; [exact E|]. rewrite receiver_nonlogger; rewrite E; [reflexivity|exact H0].
+Qed.
+(* what today's code does in between (the property is silent about it): once the ACTIVE logger is
+   destroyed while the logger's handler is current, messages reach nobody until a restore or a
+   further install *)
+Lemma destroy_active_swallows s k : memb k (alive s) = true ->
+  receiver (dstep (dstep s (Install k)) (Destroy k)) = RNone.
+Proof.
+  intros Hk. rewrite (dstep_eq s), Hk. rewrite dstep_eq. cbn [alive]. rewrite Hk.
+  unfold receiver, is_active. cbn. rewrite Nat.eqb_refl. reflexivity.
+Qed.
+Lemma install_receives s k : memb k (alive s) = true -> receiver (dstep s (Install k)) = RLogger k.
+Proof. intros Hk. rewrite dstep_eq, Hk. reflexivity. Qed.
 
 (* ---- the restore theorem in terms of the observable trace of current handlers ---- *)
 Definition lt_acc (prev : mh) (acc : option mh) (c : mh) : option mh :=
   if is_logger c && negb (is_logger prev) then Some prev else acc.
-Definition J (s : ist) (acc : option mh) : Prop := IInv s /\ (cur s = Logger -> saved s = acc).
-Lemma J_step s acc o : J s acc -> J (dstep s o) (lt_acc (cur s) acc (cur (dstep s o))).
+Definition J (s : ist) (acc : option mh) (al : list nat) : Prop :=
+  IInv s /\ (cur s = Logger -> saved s = acc) /\ alive s = al.
+Lemma lt_acc_same h acc : lt_acc h acc h = acc.
+Proof. unfold lt_acc. rewrite andb_negb_r. reflexivity. Qed.
+Lemma J_step s acc al o : J s acc al ->
+  J (dstep s o) (lt_acc (cur s) acc (cur (dstep s o))) (alive_after al o).
 Proof.
-  intros [HI HJ]. split; [apply dstep_inv, HI|]. unfold lt_acc. rewrite dstep_eq.
-  destruct HI as [H1 H2]. destruct o as [| |n|].
-  - cbn. destruct (is_logger (cur s)) eqn:E; cbn; intros _; [apply HJ, is_logger_true, E|reflexivity].
+  intros [HI [HJ HA]]. split; [apply dstep_inv, HI|]. subst al. rewrite dstep_eq.
+  destruct HI as [H1 [H2 H3]]. destruct o as [k| |n| |k|k]; cbn [alive_after].
+  - destruct (memb k (alive s)); [|rewrite lt_acc_same; split; [exact HJ|reflexivity]].
+    unfold lt_acc. cbn. split; [|reflexivity].
+    destruct (is_logger (cur s)) eqn:E; cbn; intros _; [apply HJ, is_logger_true, E|reflexivity].
   - destruct (saved s) as [p|] eqn:Es.
-    + cbn. destruct (is_logger (cur s)) eqn:E.
+    + cbn. split; [|reflexivity]. destruct (is_logger (cur s)) eqn:E.
       * intros E2. subst p. contradiction H1. reflexivity.
       * intros E2. apply is_logger_false in E. contradiction.
-    + intros E2. specialize (H2 E2). contradiction.
-  - cbn. discriminate.
-  - cbn. discriminate.
+    + rewrite lt_acc_same. split; [|reflexivity]. intros E2. specialize (H2 E2). contradiction H2. reflexivity.
+  - cbn. split; [discriminate|reflexivity].
+  - cbn. split; [discriminate|reflexivity].
+  - destruct (memb k (alive s)); rewrite lt_acc_same; (split; [exact HJ|reflexivity]).
+  - destruct (memb k (alive s)) eqn:Ek; rewrite lt_acc_same; cbn; (split; [exact HJ|]); [reflexivity|].
+    symmetry. apply remove_notin, Ek.
 Qed.
 Lemma last_takeover_step prev c r acc :
   last_takeover prev (c :: r) acc = last_takeover c r (lt_acc prev acc c).
 Proof. reflexivity. Qed.
-Lemma J_run ops : forall s acc, J s acc ->
-  J (fold_left dstep ops s) (last_takeover (cur s) (iexec doc_inst s ops) acc).
+Lemma J_run ops : forall s acc al, J s acc al ->
+  J (fold_left dstep ops s) (last_takeover (cur s) (map fst (iexec doc_inst s ops)) acc)
+    (fold_left alive_after ops al).
 Proof.
-  induction ops as [|o r IH]; intros s acc H; cbn [fold_left iexec]; [exact H|].
+  induction ops as [|o r IH]; intros s acc al H; cbn [fold_left iexec map fst]; [exact H|].
   rewrite last_takeover_step. apply (IH (dstep s o)). apply J_step, H.
 Qed.
-Lemma J0 : J i0 None.
-Proof. split; [apply i0_inv|]. cbn. discriminate. Qed.
+Lemma J0 : J i0 None [0%nat].
+Proof. split; [apply i0_inv|]. cbn. split; [discriminate|reflexivity]. Qed.
 Theorem restore_reinstates ops : cur (irun doc_inst ops) = Logger ->
-  exists p, last_takeover Default (itrace doc_inst ops) None = Some p
-            /\ p <> Logger /\ cur (dstep (irun doc_inst ops) Restore) = p.
+  exists p, last_takeover Default (map fst (itrace doc_inst ops)) None = Some p
+            /\ p <> Logger /\ cur (dstep (irun doc_inst ops) Restore) = p
+            /\ receiver (dstep (irun doc_inst ops) Restore) = recv_of p.
 Proof.
-  intros Hc. destruct (J_run ops i0 None J0) as [[H1 H2] HJ].
+  intros Hc. destruct (J_run ops i0 None _ J0) as [[H1 [H2 H3]] [HJ _]].
   change (fold_left dstep ops i0) with (irun doc_inst ops) in *.
   change (cur i0) with Default in HJ. fold (itrace doc_inst ops) in HJ.
   specialize (HJ Hc). specialize (H2 Hc).
   destruct (saved (irun doc_inst ops)) as [p|] eqn:Es; [|contradiction].
-  exists p. split; [symmetry; exact HJ|]. split; [congruence|].
-  rewrite dstep_eq, Es. cbn. apply is_logger_true in Hc. rewrite Hc. reflexivity.
+  assert (Hp : p <> Logger) by congruence.
+  assert (E : cur (dstep (irun doc_inst ops) Restore) = p).
+  { rewrite dstep_eq, Es. cbn. apply is_logger_true in Hc. rewrite Hc. reflexivity. }
+  exists p. split; [symmetry; exact HJ|]. split; [exact Hp|]. split; [exact E|].
+  rewrite receiver_nonlogger; rewrite E; [reflexivity|exact Hp].
 Qed.
 Theorem restore_leaves_other ops : cur (irun doc_inst ops) <> Logger ->
   cur (dstep (irun doc_inst ops) Restore) = cur (irun doc_inst ops).
 Proof. apply restore_keeps_nonlogger. Qed.
+Theorem active_logger_exists ops k : active (irun doc_inst ops) = Some k -> memb k (alive (irun doc_inst ops)) = true.
+Proof. apply run_inv. Qed.
 
 (* the boolean oracle holds of every trace of the model *)
-Lemma trace_ok_model ops : forall s acc, J s acc ->
-  trace_ok_from (cur s) acc ops (iexec doc_inst s ops) = true.
+Lemma recv_ok_inv s : IInv s -> recv_ok (cur s) (receiver s) (alive s) = true.
 Proof.
-  induction ops as [|o r IH]; intros s acc H; cbn [iexec trace_ok_from]; [reflexivity|].
-  fold dstep. apply andb_true_iff. split.
-  - destruct H as [[H1 H2] HJ]. rewrite dstep_eq. destruct o as [| |n|]; cbn.
-    + reflexivity.
+  intros [_ [_ H3]]. unfold recv_ok, receiver. destruct (cur s) as [| |n]; cbn; [reflexivity| |apply Nat.eqb_refl].
+  destruct (active s) as [k|]; [apply H3; reflexivity|reflexivity].
+Qed.
+Lemma trace_ok_model ops : forall s acc al, J s acc al ->
+  trace_ok_from (cur s) acc al ops (iexec doc_inst s ops) = true.
+Proof.
+  induction ops as [|o r IH]; intros s acc al H; cbn [iexec trace_ok_from]; [reflexivity|].
+  fold dstep. pose proof (J_step s acc al o H) as HS.
+  apply andb_true_iff. split; [apply andb_true_iff; split|].
+  - destruct H as [[H1 [H2 H3]] [HJ HA]]. subst al. rewrite dstep_eq. destruct o as [k| |n| |k|k].
+    + destruct (memb k (alive s)); [cbn; apply Nat.eqb_refl|apply mh_eqb_refl].
     + destruct (is_logger (cur s)) eqn:E.
       * apply is_logger_true in E. specialize (HJ E). specialize (H2 E).
         destruct (saved s) as [p|] eqn:Es; [|contradiction]. rewrite <- HJ. cbn.
         apply mh_eqb_refl.
-      * destruct (saved s); cbn; apply mh_eqb_refl.
-    + apply Nat.eqb_refl.
+      * destruct (saved s); cbn; rewrite ?E; apply mh_eqb_refl.
+    + cbn. apply Nat.eqb_refl.
     + reflexivity.
-  - apply (IH (dstep s o)). apply (J_step s acc o H).
+    + destruct (memb k (alive s)); apply mh_eqb_refl.
+    + destruct (memb k (alive s)); cbn; rewrite mh_eqb_refl; apply orb_true_r.
+  - destruct HS as [HI [_ HA]]. rewrite <- HA. apply recv_ok_inv, HI.
+  - apply (IH (dstep s o)). exact HS.
 Qed.
 Theorem install_oracle_holds ops : prop_install_b ops (itrace doc_inst ops) = true.
-Proof. apply (trace_ok_model ops i0 None J0). Qed.
+Proof. apply (trace_ok_model ops i0 None _ J0). Qed.
 
 (* ================================================================== the SGR stripper *)
 Section Strip.
@@ -767,4 +898,236 @@ Proof.
   destruct (strip_pretty 15 st m Hm) as [E1 E2].
   destruct (pretty true 15 st m) as [st' txt]. destruct (pretty false 15 st m) as [st2 txt2].
   cbn [fst snd] in *. subst. unfold project in *. cbn. f_equal. apply IH.
+Qed.
+
+(* ================================================================== which file holds which record *)
+Lemma chunks_concat (ls : list (list N)) rest : chunks (map (@List.length N) ls) (List.concat ls ++ rest) = ls.
+Proof.
+  induction ls as [|l t IH]; [reflexivity|]. cbn [map chunks List.concat]. rewrite <- app_assoc.
+  rewrite firstn_app, firstn_all, Nat.sub_diag, skipn_app, skipn_all, Nat.sub_diag. cbn [firstn skipn app].
+  rewrite app_nil_r, IH. reflexivity.
+Qed.
+Lemma nsum_lengths (ls : list (list N)) : nsum (map (@List.length N) ls) = List.length (List.concat ls).
+Proof. induction ls as [|l t IH]; [reflexivity|]. cbn [map nsum fold_right List.concat]. rewrite app_length. fold (nsum (map (@List.length N) t)). rewrite IH. reflexivity. Qed.
+Lemma skipn_concat (ls : list (list N)) rest : skipn (nsum (map (@List.length N) ls)) (List.concat ls ++ rest) = rest.
+Proof. rewrite nsum_lengths, skipn_app, skipn_all, Nat.sub_diag. reflexivity. Qed.
+Lemma forallb2_obs (rot : list rfile) :
+  forallb2 (fun (r : N * nat * nat) c => single_day (fst (fst r)) c)
+           (map (fun r : rfile => (fst r, List.length (snd r))) rot) (map snd rot)
+  = forallb (fun r : rfile => single_day (fst (fst r)) (snd r)) rot.
+Proof. induction rot as [|r t IH]; [reflexivity|]. cbn [map forallb2 forallb fst snd]. rewrite IH. reflexivity. Qed.
+Lemma forallb_repeat d n : forallb (N.eqb d) (repeat d n) = true.
+Proof. induction n; cbn; [reflexivity|]. rewrite N.eqb_refl. exact IHn. Qed.
+
+Definition want_of (f : fparams) : fwant :=
+  {| w_startup := f_startup f; w_daily := f_daily f; w_size := f_size f; w_count := f_count f |}.
+(* nothing is lost: the rotated files in order followed by the active file hold all records *)
+Definition LInv (all : list N) (s : flay) : Prop := List.concat (map snd (fl_rot s)) ++ fl_active s = all.
+Lemma rotate_L c now all s : LInv all s -> LInv all (fl_rotate c now s).
+Proof.
+  unfold LInv, fl_rotate. intros H. destruct (c =? 1)%Z; [exact H|]. cbn [fl_rot fl_active].
+  rewrite map_app, concat_app. cbn [map snd List.concat]. rewrite !app_nil_r. exact H.
+Qed.
+Lemma send_L f all s d : LInv all s -> LInv (all ++ [d]) (fl_send f s d).
+Proof.
+  intros H. unfold fl_send.
+  destruct (f_daily f && negb (d =? fl_date s) && nonemptyb (fl_active s)).
+  - pose proof (rotate_L (f_count f) d all s H) as H'. unfold LInv in *. cbn [fl_rot fl_active].
+    rewrite app_assoc, H'. reflexivity.
+  - unfold LInv in *. cbn [fl_rot fl_active]. rewrite app_assoc, H. reflexivity.
+Qed.
+Lemma fold_L f ds : forall all s, LInv all s -> LInv (all ++ ds) (fold_left (fl_send f) ds s).
+Proof.
+  induction ds as [|d r IH]; intros all s H; cbn [fold_left]; [rewrite app_nil_r; exact H|].
+  replace (all ++ d :: r) with ((all ++ [d]) ++ r) by (rewrite <- app_assoc; reflexivity).
+  apply IH, send_L, H.
+Qed.
+Lemma init_L f pre d0 now : LInv pre (fl_init f pre d0 now).
+Proof. unfold fl_init. destruct (f_startup f && nonemptyb pre); [apply rotate_L|]; reflexivity. Qed.
+Theorem layout_L f npre d0 days : LInv (repeat d0 npre ++ days) (layout f npre d0 days).
+Proof.
+  unfold layout. destruct (f_rotating f); [|reflexivity]. destruct days as [|d r].
+  - unfold LInv. cbn. rewrite app_nil_r. reflexivity.
+  - apply fold_L, init_L.
+Qed.
+
+(* no rotated file when rotation is disabled or not asked for *)
+Definition rot_off (f : fparams) : Prop := f_count f = 1%Z \/ (f_startup f = false /\ f_daily f = false).
+Lemma send_off f s d : rot_off f -> fl_rot s = [] -> fl_rot (fl_send f s d) = [].
+Proof.
+  intros [E|[_ E]] H; unfold fl_send.
+  - destruct (f_daily f && negb (d =? fl_date s) && nonemptyb (fl_active s)); [|exact H].
+    unfold fl_rotate. rewrite E. exact H.
+  - rewrite E. exact H.
+Qed.
+Lemma fold_off f ds : rot_off f -> forall s, fl_rot s = [] -> fl_rot (fold_left (fl_send f) ds s) = [].
+Proof. intros Ho. induction ds as [|d r IH]; intros s H; cbn [fold_left]; [exact H|]. apply IH, send_off; assumption. Qed.
+Lemma init_off f pre d0 now : rot_off f -> fl_rot (fl_init f pre d0 now) = [].
+Proof.
+  intros [E|[E _]]; unfold fl_init.
+  - destruct (f_startup f && nonemptyb pre); [|reflexivity]. unfold fl_rotate. rewrite E. reflexivity.
+  - rewrite E. reflexivity.
+Qed.
+Theorem layout_off f npre d0 days : f_rotating f = false \/ rot_off f -> fl_rot (layout f npre d0 days) = [].
+Proof.
+  unfold layout. intros [E|Ho]; [rewrite E; reflexivity|].
+  destruct (f_rotating f); [|reflexivity]. destruct days as [|d r]; [reflexivity|].
+  apply fold_off; [exact Ho|]. apply init_off, Ho.
+Qed.
+
+(* daily: every rotated file holds the lines of one day and is named after it; the active file
+   holds the lines of m_currentLogDate only *)
+Definition DInv (s : flay) : Prop :=
+  forallb (fun r : rfile => single_day (fst (fst r)) (snd r)) (fl_rot s) = true
+  /\ forallb (N.eqb (fl_date s)) (fl_active s) = true.
+Lemma send_D f s d : f_daily f = true -> f_count f <> 1%Z -> DInv s -> (fl_active s = [] -> fl_date s = d) ->
+  DInv (fl_send f s d) /\ fl_active (fl_send f s d) <> [].
+Proof.
+  intros Hd Hc [H1 H2] Hg. unfold fl_send. rewrite Hd. cbn [andb].
+  destruct (d =? fl_date s) eqn:Ed; cbn [negb andb].
+  - apply N.eqb_eq in Ed. subst d. split; [|destruct (fl_active s); discriminate].
+    split; cbn [fl_rot fl_active fl_date]; [exact H1|]. rewrite forallb_app, H2. cbn. rewrite N.eqb_refl. reflexivity.
+  - destruct (fl_active s) as [|x t] eqn:Ea; cbn [nonemptyb].
+    + specialize (Hg eq_refl). subst d. rewrite N.eqb_refl in Ed. discriminate.
+    + unfold fl_rotate. apply Z.eqb_neq in Hc. rewrite Hc. cbn [fl_rot fl_active fl_date app].
+      split; [|intros E; discriminate]. split; cbn [fl_rot fl_active fl_date].
+      * rewrite forallb_app, H1. cbn [forallb fst snd andb]. unfold single_day. rewrite Ea. cbn [nonemptyb andb].
+        rewrite H2. reflexivity.
+      * cbn. rewrite N.eqb_refl. reflexivity.
+Qed.
+Lemma fold_D f ds : f_daily f = true -> f_count f <> 1%Z -> forall s, DInv s -> fl_active s <> [] ->
+  DInv (fold_left (fl_send f) ds s).
+Proof.
+  intros Hd Hc. induction ds as [|d r IH]; intros s H Hn; cbn [fold_left]; [exact H|].
+  destruct (send_D f s d Hd Hc H) as [H' Hn']; [intros E; contradiction|]. apply IH; assumption.
+Qed.
+Lemma init_D f npre d0 now : f_count f <> 1%Z ->
+  let s := fl_init f (repeat d0 npre) d0 now in DInv s /\ (fl_active s = [] -> fl_date s = now).
+Proof.
+  intros Hc. unfold fl_init. destruct npre as [|n].
+  - cbn [repeat nonemptyb]. rewrite andb_false_r. split; [split; reflexivity|reflexivity].
+  - change (nonemptyb (repeat d0 (S n))) with true. rewrite andb_true_r.
+    destruct (f_startup f).
+    + unfold fl_rotate. apply Z.eqb_neq in Hc. rewrite Hc. cbn [fl_rot fl_active fl_date app]. split; [|reflexivity].
+      split; [|reflexivity]. cbn [fl_rot forallb fst snd]. unfold single_day.
+      change (nonemptyb (repeat d0 (S n))) with true. rewrite forallb_repeat. reflexivity.
+    + cbn [fl_rot fl_active fl_date]. split; [|discriminate]. split; [reflexivity|apply forallb_repeat].
+Qed.
+Theorem layout_D f npre d0 days : f_rotating f = true -> f_daily f = true -> f_count f <> 1%Z ->
+  DInv (layout f npre d0 days).
+Proof.
+  intros Hr Hd Hc. unfold layout. rewrite Hr. destruct days as [|d r].
+  - split; [reflexivity|]. apply forallb_repeat.
+  - cbn [fold_left]. destruct (init_D f npre d0 d Hc) as [H Hg].
+    destruct (send_D f _ d Hd Hc H Hg) as [H' Hn]. apply fold_D; assumption.
+Qed.
+
+(* rotated files are only ever added at the end *)
+Lemma send_ext f s d : exists ext, fl_rot (fl_send f s d) = fl_rot s ++ ext.
+Proof.
+  unfold fl_send. destruct (f_daily f && negb (d =? fl_date s) && nonemptyb (fl_active s)).
+  - unfold fl_rotate. destruct (f_count f =? 1)%Z; cbn [fl_rot]; [exists []; rewrite app_nil_r; reflexivity|].
+    eexists. reflexivity.
+  - exists []. rewrite app_nil_r. reflexivity.
+Qed.
+Lemma fold_ext f ds : forall s, exists ext, fl_rot (fold_left (fl_send f) ds s) = fl_rot s ++ ext.
+Proof.
+  induction ds as [|d r IH]; intros s; cbn [fold_left]; [exists []; rewrite app_nil_r; reflexivity|].
+  destruct (IH (fl_send f s d)) as [e1 E1]. destruct (send_ext f s d) as [e2 E2].
+  exists (e2 ++ e1). rewrite E1, E2, app_assoc. reflexivity.
+Qed.
+(* the lines found at start are the first rotated file, named after their day, index 1, when startup
+   rotation is on - and ALSO when only daily rotation is on and the first message is of another day *)
+Theorem old_lines_rotated_out f npre d0 d r : f_rotating f = true -> f_count f <> 1%Z -> (0 < npre)%nat ->
+  f_startup f = true \/ (f_daily f = true /\ d <> d0) ->
+  hd_error (fl_rot (layout f npre d0 (d :: r))) = Some (d0, 1%nat, repeat d0 npre).
+Proof.
+  intros Hr Hc Hn Hw. unfold layout. rewrite Hr. cbn [fold_left].
+  destruct npre as [|n]; [inversion Hn|]. apply Z.eqb_neq in Hc.
+  assert (E : exists ext, fl_rot (fl_send f (fl_init f (repeat d0 (S n)) d0 d) d) = (d0, 1%nat, repeat d0 (S n)) :: ext).
+  { unfold fl_init. change (nonemptyb (repeat d0 (S n))) with true. rewrite andb_true_r.
+    destruct (f_startup f) eqn:Es.
+    - unfold fl_rotate at 1. rewrite Hc. cbn [fl_rot fl_active fl_date app].
+      match goal with |- context [fl_send f ?st d] => destruct (send_ext f st d) as [e E] end.
+      cbn [fl_rot] in E. exists e. rewrite E. reflexivity.
+    - destruct Hw as [Hw|[Hd Hne]]; [discriminate|]. unfold fl_send. cbn [fl_date fl_active fl_rot]. rewrite Hd.
+      apply N.eqb_neq in Hne. rewrite Hne. change (nonemptyb (repeat d0 (S n))) with true. cbn [andb negb].
+      unfold fl_rotate. rewrite Hc. cbn [fl_rot fl_active fl_date app]. eexists. reflexivity. }
+  destruct E as [e E]. destruct (fold_ext f r (fl_send f (fl_init f (repeat d0 (S n)) d0 d) d)) as [e2 E2].
+  rewrite E2, E. reflexivity.
+Qed.
+
+(* the layout oracle holds of the model whenever the plain sink is only chosen when no rotation
+   option is given *)
+Theorem layout_oracle_holds f npre d0 days :
+  (f_rotating f = false -> f_startup f = false /\ f_daily f = false) ->
+  prop_layout_b (want_of f) npre d0 days (lay_obs (layout f npre d0 days)) = true.
+Proof.
+  intros Hplain. pose proof (layout_L f npre d0 days) as HL. unfold LInv in HL.
+  set (s := layout f npre d0 days) in *. unfold prop_layout_b, lay_obs. cbn [fst snd].
+  rewrite map_map. cbn [snd].
+  assert (Em : map (fun x : rfile => List.length (snd x)) (fl_rot s) = map (@List.length N) (map snd (fl_rot s)))
+    by (rewrite map_map; reflexivity).
+  rewrite Em. rewrite <- HL.
+  rewrite skipn_concat, chunks_concat, nsum_lengths, app_length, Nat.eqb_refl. cbn [andb].
+  rewrite forallb2_obs.
+  apply andb_true_iff. split; [apply andb_true_iff; split|].
+  - unfold rotation_off, want_of. cbn [w_count w_startup w_daily w_size].
+    destruct ((f_count f =? 1)%Z) eqn:Ec; cbn [orb].
+    + apply Z.eqb_eq in Ec. unfold s. rewrite layout_off; [reflexivity|]. right. left. exact Ec.
+    + destruct (negb (f_startup f) && negb (f_daily f) && (f_size f <=? 0)%Z) eqn:En; [|reflexivity].
+      apply andb_true_iff in En as [En _]. apply andb_true_iff in En as [E1 E2].
+      apply negb_true_iff in E1, E2. unfold s. rewrite layout_off; [reflexivity|]. right. right. split; assumption.
+  - unfold want_of. cbn [w_daily w_count].
+    destruct (f_daily f) eqn:Ed; cbn [andb]; [|reflexivity].
+    destruct ((f_count f =? 1)%Z) eqn:Ec; cbn [negb]; [reflexivity|]. apply Z.eqb_neq in Ec.
+    destruct (f_rotating f) eqn:Er; [|destruct (Hplain eq_refl) as [_ E]; discriminate].
+    destruct (layout_D f npre d0 days Er Ed Ec) as [H1 H2]. fold s in H1, H2. rewrite H1. cbn [andb].
+    destruct (fl_active s) as [|x t]; [reflexivity|]. cbn [forallb] in H2. apply andb_true_iff in H2 as [Hx Ht].
+    apply N.eqb_eq in Hx. subst x. cbn [forallb]. rewrite N.eqb_refl, Ht. reflexivity.
+  - unfold want_of. cbn [w_startup w_count].
+    destruct (f_startup f) eqn:Es; cbn [andb]; [|reflexivity].
+    destruct ((f_count f =? 1)%Z) eqn:Ec; cbn [negb andb]; [reflexivity|]. apply Z.eqb_neq in Ec.
+    destruct (Nat.ltb 0 npre) eqn:En; cbn [andb]; [|reflexivity]. apply Nat.ltb_lt in En.
+    destruct days as [|d r]; cbn [nonemptyb]; [reflexivity|].
+    destruct (f_rotating f) eqn:Er; [|destruct (Hplain eq_refl) as [E _]; discriminate].
+    pose proof (old_lines_rotated_out f npre d0 d r Er Ec En (or_introl Es)) as H. fold s in H.
+    destruct (fl_rot s) as [|x t]; [discriminate|]. cbn [hd_error] in H. injection H as H. subst x.
+    cbn [map fst snd]. rewrite N.eqb_refl, repeat_length, Nat.eqb_refl. reflexivity.
+Qed.
+
+(* the two front-ends: the sink each builds satisfies what its options say *)
+Lemma ol_want_of a : want_of (ol_fparams doc_oneline a) = ol_want a.
+Proof. reflexivity. Qed.
+Lemma ini_want_of s : want_of (ini_fparams doc_ini s) = ini_want s.
+Proof.
+  unfold want_of, ini_fparams, ini_want. cbn [f_startup f_daily f_size f_count doc_ini i_startup i_daily i_max_size i_max_count].
+  rewrite !readb_getb. reflexivity.
+Qed.
+Theorem oneline_layout_ok a npre d0 days :
+  prop_layout_b (ol_want a) npre d0 days (lay_obs (layout (ol_fparams doc_oneline a) npre d0 days)) = true.
+Proof.
+  rewrite <- ol_want_of. apply layout_oracle_holds. cbn [f_rotating f_startup f_daily ol_fparams].
+  unfold ol_rotating. cbn [doc_oneline ol_rot_size ol_rot_startup ol_rot_daily andb]. intros H.
+  apply orb_false_iff in H as [H H2]. apply orb_false_iff in H as [_ H1]. split; assumption.
+Qed.
+Theorem ini_layout_ok s npre d0 days :
+  prop_layout_b (ini_want s) npre d0 days (lay_obs (layout (ini_fparams doc_ini s) npre d0 days)) = true.
+Proof. rewrite <- ini_want_of. apply layout_oracle_holds. discriminate. Qed.
+(* the built handler lists contain exactly that sink *)
+Definition is_file (h : handler) : bool := match h with HFile _ => true | _ => false end.
+Lemma oneline_file_sink a : emptyb (o_path a) = false ->
+  filter is_file (build_oneline doc_oneline a) = [HFile (ol_fparams doc_oneline a)].
+Proof. intros H. rewrite oneline_shape. unfold ol_tail. rewrite H. reflexivity. Qed.
+Lemma ini_file_sink s : emptyb (k_path s) = false ->
+  filter is_file (build_ini doc_ini s) = [HFile (ini_fparams doc_ini s)].
+Proof.
+  intros H. rewrite ini_shape. rewrite !filter_app.
+  assert (E1 : filter is_file (filters_of s) = []).
+  { unfold filters_of. cbn [slot_handlers].
+    destruct (emptyb (rules_text (k_rules s))); destruct (k_regexp s) as [r|]; try destruct (emptyb (rx_text r)); reflexivity. }
+  assert (E2 : filter is_file [formatter_of s] = []).
+  { unfold formatter_of. destruct (emptyb (pattern_text (k_pattern s))); reflexivity. }
+  rewrite E1, E2. unfold sinks_of. cbn [slot_handlers]. unfold console_slot. rewrite H.
+  repeat match goal with |- context [if ?c then _ else _] => destruct c end; reflexivity.
 Qed.
